@@ -20,6 +20,11 @@ RECEIVER_CONVENTION = {
     "self.klong": ("interpreter", "KlongInterpreter"),
     "self.klong._context": ("interpreter", "KlongContext"),
     "nc": None,
+    "backend": ("backends/base", "BackendProvider"),
+    "klong._backend": ("backends/base", "BackendProvider"),
+    "klong.backend": ("backends/base", "BackendProvider"),
+    "self._backend": ("backends/base", "BackendProvider"),
+    "self.klong._backend": ("backends/base", "BackendProvider"),
 }
 
 _BUILTINS = set(dir(builtins))
@@ -40,6 +45,8 @@ class CallGraph:
         self.external = 0
         self._attr_types = {}  # (module, cls) -> {attr: class name}
         self._built = False
+        self._rc_cache = {}
+        self._lt_cache = {}
 
     # ------------------------------------------------------------ symbols
     def _mod_of(self, cur, level, modname):
@@ -233,7 +240,9 @@ class CallGraph:
 
     def local_types(self, fi):
         """variables of fi with a known class: constructor assignment, annotation"""
-        out = {}
+        if fi.fq in self._lt_cache:
+            return self._lt_cache[fi.fq]
+        out = self._lt_cache.setdefault(fi.fq, {})
         a = fi.node.args
         for p in a.posonlyargs + a.args + a.kwonlyargs:
             if p.annotation is not None:
@@ -276,7 +285,15 @@ class CallGraph:
         return None
 
     def resolve_call(self, fi, call):
-        """-> [FuncInfo] possible callees (empty when external or unknown)"""
+        """-> [FuncInfo] possible callees (empty when external or unknown); cached per call node"""
+        key = (id(call), fi.fq)
+        r = self._rc_cache.get(key)
+        if r is None:
+            r = self._resolve_call(fi, call)
+            self._rc_cache[key] = r
+        return r
+
+    def _resolve_call(self, fi, call):
         f = call.func
         if isinstance(f, ast.Name):
             return self.resolve_name(fi, f.id)
